@@ -389,6 +389,8 @@ PANIC_TABLE = {
     ("Board::target_squares", "unwrap", "bitboard::BitBoard::next_square"): "instantiated with IN_CHECK=true only under len(checkers) == 1",
     ("get_bishop_moves", "assert", "BoundsCheck"): "C05 in-bounds audit",
     ("get_rook_moves", "assert", "BoundsCheck"): "C05 in-bounds audit",
+    ("pext::get_pext_index", "assert", "Overflow:Add(usize)"):
+        "PEXT back end: C05 evaluates offset + pext(occupancy, mask) for every square and relevant subset and finds it inside the table",
     ("rank::Rank::index_const", "panic", "panic_fmt"): "documented panicking constructor; callers proved in range",
     ("square::Square::index_const", "panic", "panic_fmt"): "documented panicking constructor; callers proved in range",
     ("file::File::index_const", "panic", "panic_fmt"): "documented panicking constructor; callers proved in range",
